@@ -36,3 +36,4 @@ def setup():
 
 
 from . import props_v4  # noqa: E402,F401
+from . import props_client  # noqa
